@@ -159,7 +159,9 @@ fn render_step(step: &Value, variant: usize) -> String {
     for a in step["pre"].as_array().unwrap() {
         let name = a[0].as_str().unwrap();
         let val = a[1].as_str().unwrap();
-        if val.is_empty() && variant % 2 == 1 {
+        if name == "readonly" {
+            s.push_str(&format!("readonly {val}\n"));
+        } else if val.is_empty() && variant % 2 == 1 {
             s.push_str(&format!("unset {name}\n"));
         } else {
             s.push_str(&format!("{name}={}\n", quote(val)));
@@ -443,7 +445,30 @@ fn replay(args: &[String]) {
                         }
                     }
                     let mut state_reported: HashSet<Mode> = HashSet::new();
+                    // On the simulator the witness itself often leaves the simulated cwd in a
+                    // non-canonical form (e.g. `cd -L /a` in /a is chdir(".")).  Where the
+                    // specification says that starting the shell in s.cwd with PWD = s.pwd and
+                    // OLDPWD = s.oldpwd in the environment yields exactly s (link-free tree, $PWD
+                    // without dot components: Start / ValidPwd), the state is reached that way
+                    // (states with a witness only: the starts themselves are cases to check).
+                    let direct = {
+                        let pwd = st["s"]["pwd"].as_str().unwrap();
+                        !links && !st["w"].as_array().unwrap().is_empty() && !sim_dirty(pwd)
+                    };
+                    let st_direct = if direct {
+                        let mut d = st.clone();
+                        d["start"] = json!({"cwd": st["s"]["cwd"], "env": {"pwd": st["s"]["pwd"], "oldpwd": st["s"]["oldpwd"], "home": "", "cdpath": ""}});
+                        d["w"] = json!([]);
+                        Some(d)
+                    } else {
+                        None
+                    };
+                    let st_orig = st;
                     for mode in modes {
+                        let st = match (&st_direct, mode) {
+                            (Some(d), Mode::Sim) => d,
+                            _ => &st_orig,
+                        };
                         for part in all.chunks(chunk) {
                             njobs.fetch_add(1, Ordering::SeqCst);
                             let mut rest: &[usize] = part;
@@ -451,7 +476,7 @@ fn replay(args: &[String]) {
                             while !rest.is_empty() {
                                 let mut script = String::new();
                                 for &k in rest {
-                                    script.push_str(&case_script(&st, &st["fan"][k], &format!("{si}.{k}"), si + k));
+                                    script.push_str(&case_script(st, &st["fan"][k], &format!("{si}.{k}"), si + k));
                                 }
                                 let o = run_script(&st["nodes"], &st["start"], &script, mode);
                                 if o.outcome == "timeout" || o.outcome.starts_with("status 97") {
@@ -471,7 +496,7 @@ fn replay(args: &[String]) {
                                 for &k in &rest[..cut] {
                                     let exp = &st["fan"][k];
                                     let id = format!("{si}.{k}");
-                                    let v = judge(&o, &st, exp, &id, mode);
+                                    let v = judge(&o, st, exp, &id, mode);
                                     cn.cases += 1;
                                     let record = |field: &str, exp: Value, seen: Value| {
                                         mismatches.lock().unwrap().push(json!({
